@@ -60,6 +60,12 @@ impl<'h> FindMatches<'h> {
         self.inner.set_offset(position);
     }
 
+    /// Returns a copy of the mutable state of the iterator.
+    #[cfg(feature = "verif")]
+    pub fn verif_state(&self) -> crate::verif::IterState {
+        self.inner.verif_state()
+    }
+
     /// Retrieve the current byte offset from the start of the haystack.
     /// This is the end offset of the last match found by the iterator.
     #[inline]
